@@ -36,5 +36,5 @@ pub proof fn lemma_fs_full(s: FastSet, x: u32)
         else if k1 < s.size { assert(fs_has(s, s.elem@[k1])); }
         else if k2 < s.size { assert(fs_has(s, s.elem@[k2])); }
     }
-    lemma_pigeon(q, s.max as int);
+    lemma_pigeonhole(q, s.max as int);
 }
